@@ -865,10 +865,21 @@ func buildCrowd(e *driver.Env, n int) {
 func EachTwin(e *driver.Env, final func(*driver.Env)) {
 	tw := e.Data.(*Twin)
 	plan, all := e.Plan, e.Tasks
+	// Which goroutine belongs to which instance is known by who started it. A
+	// library that recycles goroutines across stages (a package-level worker
+	// pool) breaks that attribution: a goroutine started for one instance may
+	// be running the other one's stage. So "this instance's goroutines are
+	// gone" is only asked when both instances are through with their inputs;
+	// while one of them is kept alive on purpose, goroutines still alive are
+	// left out of the picture (single-instance runs ask the question anyway).
+	bothDone := tw.A.InputsClosed() && tw.B.InputsClosed()
 	for _, s := range []*Sys{tw.A, tw.B} {
 		// the oracle sees the library tasks of its own instance only
 		var own []simrt.TaskInfo
 		for _, t := range all {
+			if t.Lib && !bothDone && t.State != "exited" {
+				continue
+			}
 			if !t.Lib || t.Group == s.group {
 				own = append(own, t)
 			}
